@@ -264,6 +264,7 @@ class Worker(threading.Thread):
         self.inflight_since = None
         self.killed_for_timeout = False
         self.runs_in_proc = 0
+        self.history = []     # runs this process has executed so far, in order
 
     def start_proc(self):
         cfg = self.pool.cfg
@@ -274,6 +275,7 @@ class Worker(threading.Thread):
                                      cwd=VERIF, stdin=subprocess.PIPE, stdout=subprocess.PIPE, stderr=self.errf,
                                      text=True, bufsize=1, env=child_env(cfg), errors='replace')
         self.runs_in_proc = 0
+        self.history = []
 
     def finish_proc(self):
         """close stdin, read the E line"""
@@ -324,7 +326,10 @@ class Worker(threading.Thread):
                     r = int(parts[1])
                     if self.inflight_since:
                         pool.note_duration(r, time.time() - self.inflight_since)
+                    if pending_v is not None:
+                        pending_v['history'] = list(self.history)
                     pool.add_result(r, parts[2], parts[3] == '1', int(parts[4]), pending_v)
+                    self.history.append(r)
                     pending_v = None
                     self.inflight = None
                     done_upto = r + 1
@@ -342,7 +347,7 @@ class Worker(threading.Thread):
                 r = self.inflight if self.inflight is not None else done_upto
                 sig, detail = classify_death(rc, err, self.killed_for_timeout)
                 self.killed_for_timeout = False
-                pool.add_result(r, 'dead', True, 0, dict(sig=sig, detail=detail, died=True))
+                pool.add_result(r, 'dead', True, 0, dict(sig=sig, detail=detail, died=True, history=list(self.history)))
                 self.inflight = None
                 if r + 1 < b:
                     pool.requeue((r + 1, b))
@@ -459,6 +464,46 @@ def match_known(known, sig):
     return None
 
 
+def history_dependent(cfg, tier, seed, plan, v, binary):
+    """the shortest suffix of the worker's earlier runs (then a minimal subset
+    of it) after which the plan fails as the worker saw it; None if no such"""
+    hist = v['history']
+    want = v['sig']
+    timeout = 3 * cfg.get('exec_timeout', 120)
+
+    def attempt(runs):
+        p = dict(plan)
+        p['sequence'] = [gen_plan(cfg, tier, seed, r) for r in runs]
+        p['sequence_runs'] = list(runs)
+        return p, exec_plan(cfg, p, binary, timeout=timeout)
+    k, found = 1, None
+    while True:
+        p, r = attempt(hist[-k:])
+        if r['sig'] == want:
+            found = hist[-k:]
+            break
+        if k >= len(hist):
+            break
+        k = min(len(hist), k * 2)
+    if found is None:
+        return None
+    # drop earlier runs one at a time while the failure persists
+    i = 0
+    tests = 0
+    while i < len(found) and len(found) > 1 and tests < 40:
+        cand = found[:i] + found[i + 1:]
+        tests += 1
+        p, r = attempt(cand)
+        if r['sig'] == want:
+            found = cand
+        else:
+            i += 1
+    p, a = attempt(found)
+    _, b = attempt(found)
+    log('NOTE: the violation needs the history of the worker process: after run(s) %s of the same batch' % found)
+    return p, a, b
+
+
 def process_violation(cfg, prop, tier, seed, run, v, binary):
     """gate, minimise, write replay. returns (status, sig, replay_path|None, info)"""
     plan = gen_plan(cfg, tier, seed, run)
@@ -480,6 +525,14 @@ def process_violation(cfg, prop, tier, seed, run, v, binary):
         if b['sig'] == 'hang' and a['hash'] != b['hash']:
             return ('slow', 'hang', None, 'run %d is still making progress after %ds when run alone (its event '
                     'log keeps growing): slow, not hung' % (run, long_timeout))
+    if not a['sig'] and not b['sig'] and v.get('history') and v.get('sig') != 'hang':
+        # Nothing fails when the plan runs alone in a fresh process, but it did
+        # in the worker, which had executed other runs before it: the outcome
+        # may depend on what those left behind in process-global state. Replay
+        # the run together with (a suffix of) that history.
+        hp = history_dependent(cfg, tier, seed, plan, v, binary)
+        if hp is not None:
+            plan, a, b = hp
     if not a['sig'] or a['sig'] != b['sig'] or a['hash'] != b['hash']:
         return ('nondeterministic', v['sig'], None,
                 'worker saw %r; fresh replays gave %r/%s and %r/%s' % (v['sig'], a['sig'], a['hash'], b['sig'], b['hash']))
@@ -491,14 +544,19 @@ def process_violation(cfg, prop, tier, seed, run, v, binary):
     t_start = time.time()
     wall = cfg.get('shrink_wall', 150)
 
+    seq_timeout = 3 * cfg.get('exec_timeout', 120) if plan.get('sequence') else None
+    keys = cfg.get('shrink_keys')
+    if plan.get('sequence'):
+        keys = list(keys or shrinker.DEFAULT_KEYS) + ['sequence']
+
     def still_fails(p):
         tests[0] += 1
         if time.time() - t_start > wall:
             raise shrinker.Budget()
-        return exec_plan(cfg, p, binary)['sig'] == sig
-    small = shrinker.minimise(plan, still_fails, budget, cfg.get('shrink_ints', []), cfg.get('shrink_keys'))
-    fin = exec_plan(cfg, small, binary, timeout=long_timeout if sig == 'hang' else None)
-    fin2 = exec_plan(cfg, small, binary)
+        return exec_plan(cfg, p, binary, timeout=seq_timeout)['sig'] == sig
+    small = shrinker.minimise(plan, still_fails, budget, cfg.get('shrink_ints', []), keys)
+    fin = exec_plan(cfg, small, binary, timeout=long_timeout if sig == 'hang' else seq_timeout)
+    fin2 = exec_plan(cfg, small, binary, timeout=seq_timeout)
     if fin['sig'] != sig or fin2['sig'] != sig or fin['hash'] != fin2['hash']:
         small, fin = plan, a   # fall back to the unminimised plan
     small['expect'] = dict(signature=sig, trace_hash=fin['hash'], detail=fin['detail'][:2000],
@@ -528,7 +586,8 @@ def do_replay(cfg, prop, path):
     plan = json.load(open(path))
     exp = plan.get('expect', {})
     binary = exp.get('binary') or cfg['binaries'][0]
-    r = exec_plan(cfg, plan, binary, keep_events=True)
+    r = exec_plan(cfg, plan, binary, keep_events=True,
+                  timeout=3 * cfg.get('exec_timeout', 120) if plan.get('sequence') else None)
     log('replay: signature=%r trace_hash=%s' % (r['sig'], r['hash']))
     if r['detail']:
         log(r['detail'])
